@@ -100,8 +100,11 @@ type Config struct {
 	Storage  func(p *storagetypes.Params)
 	Mint     func(p *minttypes.Params)
 	// GenesisMod may rewrite any module's genesis JSON before InitChain.
-	GenesisMod  func(cdc codec.JSONCodec, gs app.GenesisState)
-	StartHeight int64 // InitChain's InitialHeight; the first block the harness runs is StartHeight+1 (default 1 -> block 2)
+	GenesisMod func(cdc codec.JSONCodec, gs app.GenesisState)
+	// FirstBlockIsInitial: no empty commit after InitChain - the first block the harness runs is InitialHeight itself,
+	// as on a real chain (only EnvB supports it)
+	FirstBlockIsInitial bool
+	StartHeight         int64 // InitChain's InitialHeight; the first block the harness runs is StartHeight+1 (default 1 -> block 2)
 }
 
 type World struct {
@@ -166,7 +169,9 @@ func New(cfg Config) *World {
 		AppStateBytes:   w.GenesisJSON,
 		InitialHeight:   maxI64(1, cfg.StartHeight),
 	})
-	a.Commit()
+	if !cfg.FirstBlockIsInitial {
+		a.Commit()
+	}
 	w.storeKeys = map[string]storetypes.StoreKey{}
 	for k := range a.CommitMultiStore().(*rootmulti.Store).GetStores() {
 		w.storeKeys[k.Name()] = k
